@@ -2,13 +2,15 @@
 from __future__ import annotations
 
 import dataclasses
+import json
+import os
 import struct
 import sys
 import threading
 import typing as t
 
 from vf import absval as av
-from vf.common import Acc, Ctx, to_tuple
+from vf.common import Acc, Ctx, jsonable, to_tuple
 from vf.gen import histories as H
 from vf.gen import values as gv
 from vf.mon.driver import Driver
@@ -29,6 +31,7 @@ RULE = (
 ASSUMPTIONS = ["sessions are never shared between threads; only module-level state could couple them"]
 
 CUSTOM_CONTROL_OID = "1.2.3.4.99"
+ORDER_FLIP = 0  # set from the shard number: which of two colliding custom types is packed first in this process
 
 
 @dataclasses.dataclass(frozen=True)
@@ -106,11 +109,14 @@ class OtherAuth(sl.AuthenticationCredential):
     token: bytes = b""
 
     def pack(self, writer, options):
-        writer.write_octet_string(self.token, tag=A.ASN1Tag(A.TagClass.CONTEXT_SPECIFIC, self.auth_id, False))
+        # constructed [1025]: same class and number as the primitive OtherFilter [1025]
+        with writer.push_sequence(A.ASN1Tag(A.TagClass.CONTEXT_SPECIFIC, self.auth_id, True)) as w:
+            w.write_octet_string(self.token)
 
     @classmethod
     def unpack(cls, reader, options):
-        return OtherAuth(token=reader.read_octet_string(tag=A.ASN1Tag(A.TagClass.CONTEXT_SPECIFIC, cls.auth_id, False)))
+        inner = reader.read_sequence(tag=A.ASN1Tag(A.TagClass.CONTEXT_SPECIFIC, cls.auth_id, True))
+        return OtherAuth(token=inner.read_octet_string())
 
 
 @dataclasses.dataclass(frozen=True)
@@ -128,6 +134,9 @@ class ClashAuth(sl.AuthenticationCredential):
     auth_id: int = dataclasses.field(init=False, repr=False, default=0)
 
 
+SHARED_BUFFER: t.Optional[bytearray] = None  # set per run: every session of the run is fed through this one caller-owned buffer
+
+
 REG = {"control2": ("register_control", OtherControl), "filter2": ("register_filter", OtherFilter), "auth2": ("register_auth_credential", OtherAuth),
        "control": ("register_control", CustomControl), "filter": ("register_filter", CustomFilter), "auth": ("register_auth_credential", CustomAuth),
        "clash-control": ("register_control", ClashControl), "clash-filter": ("register_filter", ClashFilter), "clash-auth": ("register_auth_credential", ClashAuth)}
@@ -141,7 +150,8 @@ def gates(c, tier):
     out = []
     for k in ("schedule:random", "schedule:sequential", "schedule:alternation", "alternations>=10", "direct:registered-decodes-custom",
               "direct:unregistered-generic-control", "direct:unregistered-filter-protocolerror", "direct:unregistered-auth-protocolerror",
-              "direct:duplicate-refused", "direct:builtin-clash-refused", "custom-bytes-in-sequence", "registration-in-sequence"):
+              "direct:duplicate-refused", "direct:builtin-clash-refused", "custom-bytes-in-sequence", "registration-in-sequence",
+              "caller-buffer-shared-between-sessions", "direct:multi-control-messages", "direct:same-number-different-form", "fresh-process-reference-runs"):
         if c.get(k, 0) == 0:
             out.append(f"never observed {k}")
     for sub in range(8):
@@ -182,8 +192,20 @@ def bytes_other(kind, mid, role):
         root.children[1].children[6] = ber.Node(ber.CTX, False, 1025, content=b"other-filter")
         return ber.ser(root)
     root = rfc4511.Enc().message(("BindRequest", mid, (3, "cn=a", ("simple", "x")), ()))
-    root.children[1].children[2] = ber.Node(ber.CTX, False, 1025, content=b"other-token")
+    root.children[1].children[2] = ber.Node(ber.CTX, True, 1025, children=[ber.Node(ber.UNIV, False, 4, content=b"other-token")])
     return ber.ser(root)
+
+
+def bytes_two_controls(mid, role, which):
+    """Messages with two controls in orders that differ from the session's choice list."""
+    C1 = (CUSTOM_CONTROL_OID, True, struct.pack("<I", 5), None)
+    C2 = (CUSTOM_CONTROL_OID, False, struct.pack("<I", 6), None)
+    O1 = ("1.2.3.4.98", False, b"t", None)
+    U = ("1.2.3.4.5.6.7", False, b"u", None)
+    P = ("1.2.840.113556.1.4.319", False, None, ("paged", 10, b"ck"))
+    SD = ("1.2.840.113556.1.4.417", True, None, None)
+    ctls = [(C1, C2), (C1, P), (U, P), (SD, C1), (O1, C1), (P, SD), (U, C1, P)][which % 7]
+    return rfc4511.encode(("ExtendedRequest", mid, ("1.2.3", None), ctls) if role == "server" else ("SearchResultEntry", mid, ("cn=x", ()), ctls))
 
 
 def bytes_known_control(mid, role, with_value):
@@ -216,12 +238,18 @@ def g_sequence(r, subset):
             if role == "server":
                 steps.append(("receive", r.choice([bytes_custom_control(fresh, role), bytes_custom_filter(fresh), bytes_custom_auth(fresh), bytes_other("control", fresh, role),
                                                    bytes_other("filter", fresh, role), bytes_other("auth", fresh, role), bytes_known_control(fresh, role, True),
-                                                   bytes_known_control(fresh, role, False)])))
+                                                   bytes_known_control(fresh, role, False), bytes_two_controls(fresh, role, r.randrange(7)), bytes_two_controls(fresh, role, r.randrange(7))])))
             else:
                 ip = sorted(i_ for i_, k in shadow.model.ip.items() if k == "search")
                 mid_ = ip[0] if ip else 1
                 steps.append(("receive", r.choice([bytes_custom_control(mid_, role), bytes_other("control", mid_, role), bytes_known_control(mid_ + r.choice([0, 1, 2]) * 0 + (0 if ip else 0), role, True),
-                                                   bytes_known_control(mid_, role, False)])))
+                                                   bytes_known_control(mid_, role, False), bytes_two_controls(mid_, role, r.randrange(7))])))
+            if r.random() < 0.5 and steps and steps[-1][0] == "receive" and len(steps[-1][1]) > 4:
+                # deliver it in two pieces (the first holds no complete message)
+                d = steps.pop()[1]
+                cut = r.randrange(1, len(d) - 1)
+                steps.append(("receive", d[:cut]))
+                steps.append(("receive", d[cut:]))
         elif x < 0.5:
             fresh += 1
             a = ("receive", H.crafted_for_server(r, shadow, fresh) if role == "server" else H.crafted_for_client(r, shadow, retired))
@@ -235,6 +263,10 @@ def g_sequence(r, subset):
             steps.append(("custom-bind", "u%d" % i))
         elif x < 0.7:
             steps.append(("custom-control-call", i))
+        elif x < 0.74 and role == "client":
+            steps.append(("other-bind", "t%d" % i))
+        elif x < 0.78 and role == "client":
+            steps.append(("other-search", "f%d" % i))
         else:
             a = H.client_api_action(r) if role == "client" else H.server_api_action(r, shadow, retired)
             steps.append(a)
@@ -261,11 +293,18 @@ def exec_step(role, sess, drv_call, a, held=None):
             ret = sess.search_request("dc=c", filter=CustomFilter(value=a[1]))
         elif k == "custom-bind":
             ret = sess.bind("cn=c", CustomAuth(username=a[1]))
+        elif k == "other-bind":
+            ret = sess.bind("cn=o", OtherAuth(token=a[1].encode()))
+        elif k == "other-search":
+            ret = sess.search_request("dc=o", filter=OtherFilter(raw=a[1].encode()))
         elif k == "custom-control-call":
             if role == "client":
                 ret = sess.extended_request("1.2.3", None, controls=[CustomControl(critical=True, size=a[1])])
             else:
                 ret = sess.extended_response(1, controls=[CustomControl(critical=False, size=a[1])])
+        elif k == "receive" and SHARED_BUFFER is not None:
+            SHARED_BUFFER[:] = a[1]
+            ret = sess.receive(SHARED_BUFFER)
         else:
             ret = drv_call(a)
         out = ("ret", repr(ret))
@@ -293,6 +332,20 @@ def make_runner(role):
 
 
 def run_isolated(seq):
+    global SHARED_BUFFER
+    role, steps = seq
+    sess, call = make_runner(role)
+    held = []
+    saved, SHARED_BUFFER = SHARED_BUFFER, None  # alone: plain bytes (the reference behaviour)
+    try:
+        tr = [exec_step(role, sess, call, a, held) for a in steps]
+    finally:
+        SHARED_BUFFER = saved
+    tr.append(("held-at-end", repr([deep(m) for m in held])))
+    return tr
+
+
+def _unused_run_isolated(seq):
     role, steps = seq
     sess, call = make_runner(role)
     held = []
@@ -409,6 +462,47 @@ def direct_checks():
                 vio.append((f"registration-leaked:{kind}", f"session without the registration accepted the custom {kind}: {res!r}"))
             except sl.ProtocolError:
                 obs[f"direct:unregistered-{kind}-protocolerror"] = 1
+    # several controls in one message, in orders that differ from the session's list of known types
+    both = sl.LDAPServer()
+    both.register_control(CustomControl)
+    both.register_control(OtherControl)
+    expect_types = {CUSTOM_CONTROL_OID: CustomControl, "1.2.3.4.98": OtherControl, "1.2.840.113556.1.4.319": sl.PagedResultControl,
+                    "1.2.840.113556.1.4.417": sl.ShowDeletedControl, "1.2.3.4.5.6.7": sl.LDAPControl}
+    for which in range(7):
+        data = bytes_two_controls(100 + which, "server", which)
+        got = both.receive(data)[0]
+        for c in got.controls:
+            if type(c) is not expect_types[c.control_type]:
+                vio.append((f"registered-type-not-decoded:position-dependent", f"message with controls {[x.control_type for x in got.controls]}: {c.control_type} decoded as {type(c).__name__}"))
+                break
+        else:
+            obs["direct:multi-control-messages"] = obs.get("direct:multi-control-messages", 0) + 1
+        plain2 = sl.LDAPServer().receive(data)[0]
+        for c in plain2.controls:
+            exp_t = expect_types[c.control_type] if c.control_type.startswith("1.2.840") else sl.LDAPControl
+            if type(c) is not exp_t:
+                vio.append((f"unregistered-session-decodes:position-dependent", f"unregistered session, controls {[x.control_type for x in plain2.controls]}: {c.control_type} decoded as {type(c).__name__}"))
+                break
+    # two custom types sharing class and number but not the constructed bit, packed by different sessions of one process
+    order = [("filter", "auth"), ("auth", "filter")][ORDER_FLIP % 2]
+    for kind in order:
+        c3 = sl.LDAPClient()
+        if kind == "filter":
+            c3.search_request("dc=o", filter=OtherFilter(raw=b"other-filter"))
+            exp = bytes_other("filter", 1, "server")
+            exp = exp.replace(b"dc=x", b"dc=o")
+        else:
+            c3.bind("cn=a", OtherAuth(token=b"other-token"))
+            exp = bytes_other("auth", 1, "server")
+        got_b = c3.data_to_send()
+        try:
+            same_shape = ber.parse(got_b).children[1].children[-1 if kind == "auth" else 6].tag() == ber.parse(exp).children[1].children[-1 if kind == "auth" else 6].tag()
+        except Exception:
+            same_shape = False
+        if not same_shape:
+            vio.append((f"custom-type-encoding-depends-on-other-session:{kind}", f"custom {kind} [1025] packed after the other session's [1025] type: {got_b.hex()[:80]}"))
+        else:
+            obs["direct:same-number-different-form"] = obs.get("direct:same-number-different-form", 0) + 1
     # duplicates
     for kind in ("control", "filter", "auth"):
         s3 = sl.LDAPClient()
@@ -439,6 +533,8 @@ def run_case(seed_parts, nseq, thorough, threads=False):
     r = rng_for("c19", *seed_parts)
     subsets = [r.randrange(8) for _ in range(nseq)]
     seqs = [g_sequence(r, sub) for sub in subsets]
+    global SHARED_BUFFER
+    SHARED_BUFFER = bytearray() if (r.random() < 0.5 and not threads) else None
     iso = [run_isolated(s) for s in seqs]
     # determinism of a sequence run alone twice (precondition for the comparison)
     if [run_isolated(s) for s in seqs] != iso:
@@ -476,6 +572,9 @@ def run_case(seed_parts, nseq, thorough, threads=False):
     if any(a[0] in ("custom-search", "custom-bind", "custom-control-call") or (a[0] == "receive" and b"\x9f\x88\x00" in a[1]) for _, st in seqs for a in st):
         obs["custom-bytes-in-sequence"] = 1
     obs["_nts"] = nts
+    if SHARED_BUFFER is not None:
+        obs["caller-buffer-shared-between-sessions"] = 1
+    SHARED_BUFFER = None
     return vio, obs, seqs, subsets
 
 
@@ -490,7 +589,24 @@ def safe_direct_checks():
         return [(f"direct-check-exception:{type(e).__name__}", f"registration-scope check at {where} raised {type(e).__name__}: {e}")], {}
 
 
+def isolated_in_fresh_process(seq):
+    """The same sequence alone in a brand-new interpreter: the reference that no earlier activity of this process can
+    have influenced (module-level caches, memo tables)."""
+    import json as _json
+    import subprocess as _sp
+
+    from vf.common import PYTHON, REPO_SRC, VERIF, DEPS, jsonable
+
+    env = dict(os.environ, PYTHONPATH=os.pathsep.join([REPO_SRC, VERIF, DEPS]), PYTHONHASHSEED="0", PYTHONDONTWRITEBYTECODE="1")
+    p = _sp.run([PYTHON, "-m", "vf.props.c19"], input=_json.dumps(jsonable(seq)), capture_output=True, text=True, env=env, timeout=120, cwd=VERIF)
+    if p.returncode != 0:
+        return None
+    return [tuple(x) for x in _json.loads(p.stdout.strip().splitlines()[-1])]
+
+
 def run_shard(ctx: Ctx, acc: Acc):
+    global ORDER_FLIP
+    ORDER_FLIP = ctx.shard
     vio, obs = safe_direct_checks()
     acc.case()
     for k, v in obs.items():
@@ -509,6 +625,20 @@ def run_shard(ctx: Ctx, acc: Acc):
             acc.count(k, v)
         for sch in nts:
             acc.nontrivial(parts, sch)
+        if i % 40 == 7 and not vio:
+            # after everything this process has done so far, "alone" must still mean the same as in a fresh interpreter
+            for si, sq in enumerate(seqs):
+                fresh = isolated_in_fresh_process(sq)
+                if fresh is None:
+                    acc.notes.append("fresh-process reference run failed")
+                    continue
+                acc.count("fresh-process-reference-runs")
+                here = [tuple(x) for x in json.loads(json.dumps(jsonable(run_isolated(sq))))]
+                if fresh != here:
+                    k = next((j for j in range(min(len(fresh), len(here))) if fresh[j] != here[j]), -1)
+                    step = sq[1][k][0] if 0 <= k < len(sq[1]) else "?"
+                    vio.append((f"process-global-state:{step}", f"sequence alone in this (used) process differs from the same sequence in a fresh interpreter at call #{k} ({step}): {str(here[k])[:140]} vs {str(fresh[k])[:140]}"))
+                    break
         if i < 2:
             acc.sample({"sequences": [(role, [(a[0], a[1] if a[0] == "register" else None) for a in st]) for role, st in seqs], "subsets": subsets})
         for key, what in vio:
@@ -520,3 +650,14 @@ def replay(w):
         return safe_direct_checks()[0]
     vio, obs, seqs, subsets = run_case(tuple(w["seed_parts"]), w["nseq"], True, w.get("threads", False))
     return vio
+
+
+if __name__ == "__main__":
+    # child mode: read one sequence (JSON) from stdin, run it alone in this fresh interpreter, print the transcript
+    import sys as _sys
+
+    from vf.common import unjson as _unjson
+
+    _seq = _unjson(json.loads(_sys.stdin.read()))
+    _role, _steps = _seq[0], [to_tuple(a) if a[0] != "receive" else ("receive", bytes(a[1])) for a in _seq[1]]
+    print(json.dumps(jsonable(run_isolated((_role, _steps)))))
